@@ -1,4 +1,4 @@
-import Martian.Lemmas.ShapeSafe
+import Martian.Lemmas.ShapeSim
 /-!
 C18 — interleaved histories.  A history is any list of steps of the world `World` (one listener,
 its connections): configuration swaps, accepts, per-response context set-up, entries of
@@ -79,6 +79,23 @@ theorem old_conn_round_inert (cap : Nat) (l : Listener) (c : Conn) (pd : Pending
     (h : c.established ≤ l.lastMod) :
     (roundStep cap l c pd).1 = l ∧ (roundStep cap l c pd).2.2.1.evs = pd.evs :=
   roundStep_stale cap l c pd (validShape_old l c h)
+
+/-- **The rounds machine is `Conn.Write`.**  A `Write` of a shaped response as the sequential
+theorems describe it (`shapedWrite`: `close_at_k`, `no_close_delivers_all`, …) and the same call
+executed by the machine of the interleaved histories with nothing in between (`beginWrite`, then
+`runRounds` against the listener) deliver the same bytes, perform the same actions, return the same
+status and leave the same offset, pending action and shaping flag in the connection's context —
+for every listener, connection, adversary and byte string. -/
+theorem uninterrupted_rounds_are_shapedWrite (caps : Nat → Nat) (l : Listener) (c : Conn) (b : Bytes) (r : Nat)
+    (hsh : c.ctx.shaping = true) (hreg : c.ctx.regex = some r) (acts : List Action)
+    (hacts : acts = (match validShape l c r with | some sh => sh.actions | none => [])) :
+    let w := shapedWrite (validShape l c r).isSome caps c.ctx acts b
+    let m := runRounds caps (fuelFor (b.drop (headPart c.ctx b)) acts) l (beginWrite c b).1 (beginWrite c b).2
+    m.2.2.1.delivered = w.delivered ∧ m.2.2.1.evs = w.evs ∧ m.2.2.2 = w.status ∧
+    m.2.1.ctx.off = w.ctx.off ∧ m.2.1.ctx.next = w.ctx.next ∧ m.2.1.ctx.shaping = w.ctx.shaping := by
+  have h := shapedWrite_eq_rounds_aux caps l c b r hsh hreg acts hacts
+  simp only [shapedWrite_eq]
+  exact h
 
 /-- Why the time stamp must be taken when the map is swapped (fact `facts_serveHTTP_stamp_in_swap`):
 a variant that stamps the configuration with the time the request was *received* makes a
